@@ -3,7 +3,7 @@
    decided by comparing rendered HTML on the enumerated documents of the fragment F (see evidence). *)
 From Coq Require Import List NArith Bool Arith.
 Require Import PV.Spec.CMBlock PV.Proofs.CMProofs PV.Proofs.CMFuel PV.Proofs.CMInlineProofs.
-Require Import PV.Base.Str PV.Model.LinkDest PV.Proofs.LinkDestProofs.
+Require Import PV.Base.Str PV.Model.LinkDest PV.Proofs.LinkDestProofs PV.Model.LinkLabel PV.Proofs.LinkLabelProofs PV.Model.Tabs PV.Model.ThematicBreak PV.Proofs.ThematicBreakProofs PV.Model.AtxOpen PV.Proofs.AtxOpenProofs.
 Import ListNotations.
 
 (* whatever the text: nothing that could open or close a tag or an attribute survives the renderer's escaping *)
@@ -61,6 +61,94 @@ Example linkdest_examples :
   enc [47; 120; 37; 50; 48]%N = [47; 120; 37; 50; 48]%N /\
   enc [97; 37; 32; 102]%N = [97; 37; 50; 53; 37; 50; 48; 102]%N /\
   encode_impl [37; 43; 49; 38]%N = Some [37; 50; 53; 43; 49; 38; 97; 109; 112; 59]%N.
+Proof. repeat split; vm_compute; reflexivity. Qed.
+
+(* ---- link labels and the map of link reference definitions (links/link_parse_helper.py) ---- *)
+(* the Python text (replace_any_of, split without the empty pieces, join, casefold, strip) computes the one-pass function
+   `norm`, for every label *)
+Theorem linklabel_impl_is_norm : forall s, norm_impl s = norm s.
+Proof. exact norm_impl_is_norm_l. Qed.
+Print Assumptions linklabel_impl_is_norm.
+
+(* normalisation is a normal form: normalising twice changes nothing *)
+Theorem linklabel_idempotent : forall s, norm (norm s) = norm s.
+Proof. exact norm_idempotent_l. Qed.
+Print Assumptions linklabel_idempotent.
+
+(* what does not matter when labels are compared: the case of ASCII letters; the kind and amount of white space between
+   words (any non-empty run of spaces, tabs, line endings counts as one space); white space around the label *)
+Theorem linklabel_insensitive : forall a w1 w2 b w w',
+  all_ws w1 = true -> w1 <> [] -> all_ws w2 = true -> w2 <> [] -> all_ws w = true -> all_ws w' = true ->
+  norm (map upper (w ++ a ++ w1 ++ b ++ w')) = norm (a ++ w2 ++ b).
+Proof.
+  intros a w1 w2 b w w' H1 N1 H2 N2 H H'. rewrite norm_case_l.
+  replace (w ++ a ++ w1 ++ b ++ w') with (w ++ (a ++ w1 ++ b) ++ w') by (rewrite <- !app_assoc; reflexivity).
+  rewrite norm_strip_l by assumption. apply norm_gap_l; assumption.
+Qed.
+Print Assumptions linklabel_insensitive.
+
+(* the first definition wins: looking a label up in the map built from a document's definitions, in order, gives the value
+   of the first definition whose label has the same normal form; a label that normalises to nothing matches nothing *)
+Theorem linkdefs_first_wins : forall (V : Type) (entries : list (str * V)) label,
+  look_up V (build V entries) label =
+  if is_nil (norm label) then None else first_match V (norm label) entries.
+Proof.
+  intros V entries label. destruct (is_nil (norm label)) eqn:E; [apply empty_label_l | apply first_wins_l]; exact E.
+Qed.
+Print Assumptions linkdefs_first_wins.
+
+(* `Foo  BAR` (two spaces), `foo bar` and ` FOO<tab>bar ` are one label; of two definitions for it the first counts *)
+Example linklabel_examples :
+  norm [70; 111; 111; 32; 32; 66; 65; 82]%N = [102; 111; 111; 32; 98; 97; 114]%N /\
+  norm [32; 70; 79; 79; 9; 98; 97; 114; 32]%N = [102; 111; 111; 32; 98; 97; 114]%N /\
+  look_up nat (build nat [([70; 111; 111; 32; 32; 66; 65; 82]%N, 1%nat); ([102; 111; 111; 32; 98; 97; 114]%N, 2%nat)]) [32; 70; 79; 79; 9; 98; 97; 114; 32]%N = Some 1%nat /\
+  look_up nat (build nat [([97]%N, 1%nat)]) [32; 9]%N = None.
+Proof. repeat split; vm_compute; reflexivity. Qed.
+
+(* ---- thematic breaks (leaf_blocks/thematic_leaf_block_processor.py::is_thematic_break) ---- *)
+(* the test of the implementation - called, as the block pass does, with the line, the index behind its indentation and that
+   indentation - answers exactly as the sentence of CommonMark 4.1 does, and reports the matching character and the end of the
+   line; for every indentation (tabs included, by their width) and every rest of the line *)
+Theorem thematic_break_is_spec : forall ws body,
+  tb_impl (ws ++ body) (length ws) ws false true = if tb_spec ws body then Some (hd 0%N body, length (ws ++ body)) else None.
+Proof. exact tb_impl_is_spec_l. Qed.
+Print Assumptions thematic_break_is_spec.
+
+(* a break stays a break when more of its character or white space is appended; four columns of indentation never give one *)
+Theorem thematic_break_stable : forall ws body x,
+  (tb_spec ws body = true -> (N.eqb x (hd 0%N body) || is_blank_c x) = true -> tb_spec ws (body ++ [x]) = true) /\
+  ((4 <= calc_length ws 0)%N -> tb_spec ws body = false).
+Proof. intros ws body x. split; [apply tb_spec_append_l | apply tb_spec_indent_l]. Qed.
+Print Assumptions thematic_break_stable.
+
+Example thematic_break_examples :
+  tb_spec [] [45; 32; 45; 32; 45]%N = true /\ tb_spec [32; 32; 32]%N [42; 9; 42; 42; 9]%N = true /\
+  tb_spec [9]%N [45; 45; 45]%N = false /\ tb_spec [] [45; 45]%N = false /\ tb_spec [] [45; 45; 45; 97]%N = false /\
+  tb_spec [32; 32; 9]%N [45; 45; 45]%N = false /\ tb_spec [] [45; 42; 45; 45]%N = false.
+Proof. repeat split; vm_compute; reflexivity. Qed.
+
+(* ---- ATX headings (leaf_blocks/atx_leaf_block_processor.py::is_atx_heading) ---- *)
+(* called as the block pass calls it, the function recognises an ATX heading exactly when CommonMark 4.2 does (one to six `#`
+   after at most three columns of indentation, followed by a space, a tab or the end of the line), and returns the number of
+   `#`, the white space behind them and the index of the first character of the heading text *)
+Theorem atx_opening_is_spec : forall ws body,
+  atx_impl (ws ++ body) (length ws) ws false =
+  if atx_spec ws body then
+    let h := run_of is_hash body in let wsa := run_of is_blank_c (dropn (length h) body) in
+    Some ((length ws + length h + length wsa)%nat, length h, wsa)
+  else None.
+Proof. exact atx_impl_is_spec_l. Qed.
+Print Assumptions atx_opening_is_spec.
+
+(* seven `#` never open a heading, whatever the indentation and whatever follows *)
+Theorem atx_seven_hashes_never : forall ws body, prefix_b (repeat c_hash 7) body = true -> atx_spec ws body = false.
+Proof. exact atx_spec_seven_l. Qed.
+Print Assumptions atx_seven_hashes_never.
+
+Example atx_examples :
+  atx_spec [] [35; 32; 97]%N = true /\ atx_spec [32; 32; 32]%N [35; 35; 9; 97]%N = true /\ atx_spec [] [35]%N = true /\
+  atx_spec [] [35; 97]%N = false /\ atx_spec [9]%N [35; 32; 97]%N = false /\ atx_spec [] [35; 35; 35; 35; 35; 35; 35; 32; 97]%N = false /\
+  atx_impl [32; 35; 35; 32; 32; 97]%N 1 [32]%N false = Some (5%nat, 2%nat, [32; 32]%N).
 Proof. repeat split; vm_compute; reflexivity. Qed.
 
 (* the model is a total function: the CommonMark examples it must reproduce, as regression facts *)
